@@ -31,6 +31,15 @@ pub fn run(rep: &mut Report) {
                 return;
             }
         };
+        // the root level may still be adjusted on the built Config (Config::root_mut)
+        let mut cfg = cfg;
+        let mut spec = spec;
+        if rng.chance(1, 3) {
+            let nl = *rng.pick(&FILTERS);
+            cfg.root_mut().set_level(nl);
+            spec.root_level = nl;
+            rep.count("configs_with_root_level_changed_after_build", 1);
+        }
         let logger = log4rs::Logger::new(cfg);
         let want_max = spec.max_level();
         let got_max = logger.max_log_level();
@@ -267,7 +276,9 @@ pub fn child_main(args: &[String]) -> i32 {
         max_levels.push(prev.to_string());
         probe_global(&mut st, &specs[0], &mut rng, 0, &mut observe);
         for (i, s) in specs.iter().enumerate().skip(1) {
-            let cfg = build_config(s, &sink, "", Some(&mut rng)).expect("valid config");
+            let mut cfg = build_config(s, &sink, "", Some(&mut rng)).expect("valid config");
+            // (the specs of this history were already adjusted: see below)
+            cfg.root_mut().set_level(s.root_level);
             handle.set_config(cfg);
             let m = s.max_level();
             if m > prev {
@@ -282,6 +293,27 @@ pub fn child_main(args: &[String]) -> i32 {
             probe_global(&mut st, s, &mut rng, i, &mut observe);
         }
         steps = specs.len();
+        // a second initialisation attempt fails (a logger is already installed) and must leave the facade
+        // coherent with the configuration that is still active
+        let active = specs.last().unwrap();
+        for (k, quiet_level) in [LevelFilter::Off, LevelFilter::Trace].iter().enumerate() {
+            let other = log4rs::config::Config::builder()
+                .build(log4rs::config::Root::builder().build(*quiet_level))
+                .expect("valid config");
+            let r = if k == 0 { log4rs::init_config(other).map(|_| ()) } else {
+                log4rs::config::init_config_with_err_handler(other, Box::new(|_| {})).map(|_| ())
+            };
+            st.count("failed_second_initialisations");
+            if r.is_ok() {
+                st.viol("C02:second-init-succeeded", json!({}));
+            }
+            let got = log::max_level();
+            if got != active.max_level() {
+                st.viol("C02:facade-max-level:clobbered-by-a-failed-second-init", json!({"active_spec": active.to_json(),
+                    "second_config_root_level": quiet_level.to_string(), "expected": active.max_level().to_string(), "got": got.to_string()}));
+            }
+            probe_global(&mut st, active, &mut rng, 1000 + k, &mut observe);
+        }
     } else {
         // file appenders; no handle is returned by these entry points
         let scratch = Scratch::new("c02");
